@@ -16,6 +16,7 @@ import (
 	"runtime/debug"
 	"sort"
 	"strconv"
+	"regexp"
 	"strings"
 	"time"
 
@@ -158,7 +159,11 @@ func execA(c *lib.Ctx, cf cfg, hist []op, force bool) (st lib.Step, vs []*viol, 
 	}
 	st.Outcome = r.outcome
 	st.NonTrivial = r.changed
-	key := r.m.key()
+	// The key carries the implementation's own stored lines (rotated file,
+	// current file, memory buffer as it would be encoded), not only the
+	// reference: two histories whose stored bytes differ are different states.
+	lay := r.e.observe()
+	key := r.m.key() + "|impl:" + implSig(lay)
 	if r.layoutNote != "" {
 		c.Count("layout_differs_from_reference", 1)
 		c.Note("layout_differs_from_reference", r.layoutNote+" — history "+histString(hist))
@@ -176,12 +181,35 @@ func execA(c *lib.Ctx, cf cfg, hist []op, force bool) (st lib.Step, vs []*viol, 
 	return st, vs, ""
 }
 
+// implSig summarises what the implementation itself has stored per tier: the
+// number of lines and the client address and question of each (timestamps and
+// packed messages vary with the history length and are compared by the oracle,
+// not by the key).
+var sigRe = regexp.MustCompile(`"(IP|QH|CID)":"([^"]*)"`)
+
+func implSig(lay layout) string {
+	var sb strings.Builder
+	for _, tier := range [][]string{lay.rot, lay.cur, lay.mem} {
+		fmt.Fprintf(&sb, "[%d", len(tier))
+		for _, l := range tier {
+			for _, m := range sigRe.FindAllStringSubmatch(l, -1) {
+				sb.WriteString(" " + m[1] + "=" + m[2])
+			}
+			sb.WriteString(";")
+		}
+		sb.WriteString("]")
+	}
+	return sb.String()
+}
+
 func alphabetA(ks []int) []op {
 	ops := []op{{Kind: "flush"}, {Kind: "rotate"}}
 	for _, k := range ks {
 		ops = append(ops, op{Kind: "rec", K: k})
 	}
-	return append(ops, op{Kind: "clear"}, op{Kind: "restart"}, op{Kind: "enabled"}, op{Kind: "anon"})
+	// "get" is an API read as an operation of its own: reads must not change
+	// what is stored (on correct code it is a self-loop and is not extended).
+	return append(ops, op{Kind: "get"}, op{Kind: "clear"}, op{Kind: "restart"}, op{Kind: "enabled"}, op{Kind: "anon"})
 }
 
 var configs = []cfg{{1, true}, {2, true}, {3, true}, {100, true}, {2, false}}
